@@ -28,11 +28,12 @@ ParaShapes ==
     \cup (IF Rich THEN { <<x, y>> : x \in Wrappers, y \in Wrappers } ELSE {})
 
 P1 == <<"p", <<R>>>>
+H1 == <<"h", 1, <<R>>>>                                 \* a heading that is not a direct child of the body (list item, cell)
 SmallTbl == <<"tbl", << << <<P1>> >> >>>>               \* 1 x 1
 
 PN == <<"p", <<RN>>>>
 PX == <<"p", <<RX, R>>>>
-Cells == { <<P1>>, <<P1, P1>>, <<>>, <<SmallTbl>>, <<PN>>, <<PX>> }   \* plain, two paragraphs, empty, nested table, number, accented
+Cells == { <<P1>>, <<P1, P1>>, <<>>, <<SmallTbl>>, <<PN>>, <<PX>>, <<H1>> }   \* plain, two paragraphs, empty, nested table, number, accented, heading
 Grid(r, c, special, at) ==                               \* all cells plain except cell number `at`
     <<"tbl", [i \in 1..r |-> [j \in 1..c |-> IF (i - 1) * c + j = at THEN special ELSE <<P1>>]]>>
 TableShapes ==
@@ -43,7 +44,8 @@ TableShapes ==
 ListShapes ==
     { <<"ul", << <<P1>> >>>>, <<"ul", << <<P1>>, <<P1>> >>>>,
       <<"ul", << <<P1, <<"ul", << <<P1>> >>>> >> >>>>,
-      <<"ul", << <<P1>>, <<P1, <<"ul", << <<P1>>, <<P1>> >>>> >> >>>> }
+      <<"ul", << <<P1>>, <<P1, <<"ul", << <<P1>>, <<P1>> >>>> >> >>>>,
+      <<"ul", << <<H1>> >>>>, <<"ul", << <<H1>>, <<P1>> >>>> }        \* numbered headings: a heading inside a list item
 
 BlockShapes ==
     { <<"p", ps>> : ps \in ParaShapes }
